@@ -107,8 +107,13 @@ def cases(draw):
     elif rule == "crit":
         c["name"] = draw(st.sampled_from(["exp", "nope", "kid", "b64"]))
     elif rule in ("unregistered", "strict-off"):
-        c["name"] = draw(st.sampled_from(["x-ext", "foo", "custom", "b65"]))
-        c["value"] = draw(st.sampled_from([1, "v", [1], {"a": 1}, None]))
+        # invented names, and names that only OTHER algorithms or the other token kind define
+        foreign = [n for a, d in ALG_SPECIFIC.items() if not (kind == "jwe" and (a == alg or (a == "ECDH-1PU" and False))) for n in d
+                   if not (kind == "jwe" and n in ALG_SPECIFIC.get(alg, {}))]
+        foreign = sorted(set(foreign) | ({"enc", "zip"} if kind == "jws" else set()))
+        c["name"] = draw(st.sampled_from(["x-ext", "foo", "custom", "b65"] + (foreign if rule == "unregistered" else [])))
+        c["value"] = draw(st.sampled_from([1, "v", [1], {"a": 1}, None])) if c["name"] in ("x-ext", "foo", "custom", "b65") else \
+            {"epk": {"kty": "EC"}, "p2c": 8, "zip": "DEF", "enc": "A128GCM"}.get(c["name"], "dGV4dA")
     elif rule in ("custom-ok", "custom-type", "custom-required"):
         # a caller may also re-register a standard parameter, e.g. to make kid or cty mandatory
         c["name"] = draw(st.sampled_from(["custom", "x-ext"] + (["kid", "cty"] if rule == "custom-required" else [])))
@@ -125,6 +130,8 @@ def cases(draw):
     elif rule == "b64-no-crit":
         if not rfc7797:
             c["rule"] = "none"
+    # strict checking only concerns unregistered names: every other rule holds when it is switched off
+    c["lenient"] = c["rule"] in ("type", "missing", "crit", "custom-type", "custom-required", "b64-no-crit", "alg-specific-missing") and draw(st.integers(0, 3)) == 0
     if kind == "jwe" and ser == "general" and direction == "consume" and c["pos"] == "recipient" and alg in ("A128KW", "A128GCMKW", "PBES2-HS256+A128KW"):
         # the header under test belongs to the SECOND of two recipients (the first one is clean and decryptable);
         # every recipient must be valid ("all") or one suffices ("any": verify_all_recipients=False)
@@ -196,7 +203,7 @@ def registries(c):
     hr = None
     if c["rule"] in ("custom-ok", "custom-type", "custom-required"):
         hr = {c["name"]: HeaderParameter("caller registered", c["ctype"], c.get("required", False))}
-    strict = c["rule"] != "strict-off"
+    strict = c["rule"] != "strict-off" and not c.get("lenient")
     if c["kind"] == "jws":
         cls = rfc7797.JWSRegistry if c["rfc7797"] else jws.JWSRegistry
         if hr is None and strict and c["seed"] % 2:
